@@ -44,11 +44,20 @@ Clauses(rec) ==
   \cup If(~NonDecreasing(rec.headseq), "C17_Head_never_decreases")
   \cup If(~NonDecreasing(rec.hsseq), "C17_Height_never_decreases")
 
+\* which readers a failing clause belongs to (reader id -> its failing clauses), for the cause signature
+FailingReaders(rec) ==
+  IF "kind" \in DOMAIN rec /\ rec.kind = "stress" THEN <<>>
+  ELSE [i \in DOMAIN rec.readers |-> ReaderClauses(rec, rec.readers[i])]
+
+Late(rec) ==
+  IF "kind" \in DOMAIN rec /\ rec.kind = "stress" THEN <<>>
+  ELSE [i \in DOMAIN rec.readers |-> rec.readers[i].subAfterNotify]
+
 Init == l = 1
 Next ==
   /\ l <= Len(Trace)
   /\ LET F == Clauses(Trace[l]) IN
-       IF F = {} THEN TRUE ELSE PrintT(ToJson([k |-> "FAIL", l |-> l, tr |-> Trace[l].tr, preds |-> F]))
+       IF F = {} THEN TRUE ELSE PrintT(ToJson([k |-> "FAIL", l |-> l, tr |-> Trace[l].tr, preds |-> F, readers |-> FailingReaders(Trace[l]), late |-> Late(Trace[l])]))
   /\ l' = l + 1
 Consumed == TLCGet("stats").diameter - 1 = Len(Trace)
 =============================================================================
